@@ -27,7 +27,7 @@ def pool(tier):
 
 def bounds(tier):
     return {'wavelets': pool(tier), 'modes': dwt.MODES, '1d_sizes': '2..min(2L+4,%d)' % (26 if tier == 'quick' else 44),
-            '2d_sizes': 'grid [2..%d]^2 for L<=%d' % ((7, 6) if tier == 'quick' else (10, 8)), 'J': '1..3 (2-D: 1..2 quick)'}
+            '2d_sizes': 'grid [2..%d]^2 for L<=8' % (8 if tier == 'quick' else 12), 'J': '1..3 (2-D: 1..2 quick)'}
 
 
 def plan(tier):
@@ -40,8 +40,8 @@ def plan(tier):
                 hi = L + 3
             for n in range(2, hi + 1):
                 items.append({'dim': 1, 'wave': w, 'mode': mode, 'shape': [n], 'Js': [1, 2, 3]})
-            if L <= (6 if tier == 'quick' else 8):
-                g = range(2, 8) if tier == 'quick' else range(2, 11)
+            if L <= 8:
+                g = range(2, 9) if tier == 'quick' else range(2, 13)
                 for h in g:
                     for ww in g:
                         items.append({'dim': 2, 'wave': w, 'mode': mode, 'shape': [h, ww],
